@@ -14,7 +14,16 @@ Written from the property statement, not from ak/llparser.py:
 switches of the reference scanner.
 """
 
-SPACE_CHARS = " \t\r\f\v"
+def is_space(ch):
+    """White-space in the sense of the ``\\s`` class of a str pattern: everything str.isspace() accepts.
+    That includes characters str.splitlines() treats as line boundaries (form feed, vertical tab,
+    \\x1c-\\x1e, \\x85, \\u2028, \\u2029) — for the tokenizer contract a line ends at '\\n' only, so
+    here they are ordinary blanks."""
+    return ch.isspace()
+
+
+# characters str.splitlines() breaks lines at although they are not '\n' (and not '\r')
+EXOTIC_LINE_BREAKS = "\x0b\x0c\x1c\x1d\x1e\x85\u2028\u2029"
 
 
 class Cfg:
@@ -102,20 +111,29 @@ def scan(lines, cfg):
     in_span = False
     span_start = None
     span_first_on_line = False
+    span_exotic = False
+    exotic_before = False        # an exotic line-break character occurred earlier in the text
+    exotic_after_tok = False
     for ln, line in enumerate(lines, start=1):
         col = 0
         n = len(line)
         first_real = True      # no non-skipped token seen on this line yet
-        if n == 0 or not line.strip(SPACE_CHARS):
+        if n == 0 or not line.strip():
             if len(lines) > 1:
                 feats.add("blank-line")
         while col < n:
             if in_span:
                 idx = line.find("*/", col)
+                body = line[col:] if idx < 0 else line[col:idx]
+                if any(c in EXOTIC_LINE_BREAKS for c in body):
+                    span_exotic = True
                 if idx < 0:
                     col = n
                     continue
                 end = (ln, idx + 3)
+                if span_exotic:
+                    feats.add("exotic-line-break:in-span-token")
+                    exotic_before = True
                 toks.append(RTok("COMMENT", None, span_start, end, skipped=True, is_span=True))
                 feats.add("skipped-token")
                 feats.add("span:closes-same-line" if span_start[0] == ln else "span:closes-later-line")
@@ -126,11 +144,14 @@ def scan(lines, cfg):
                 continue
             ch = line[col]
             start = (ln, col + 1)
-            if ch in SPACE_CHARS:
+            if is_space(ch):
                 j = col
-                while j < n and line[j] in SPACE_CHARS:
+                while j < n and is_space(line[j]):
                     j += 1
                 toks.append(RTok("SPACE", line[col:j], start, (ln, j + 1), skipped=True))
+                if any(c in EXOTIC_LINE_BREAKS for c in line[col:j]):
+                    feats.add("exotic-line-break:in-skipped-whitespace")
+                    exotic_before = True
                 feats.add("skipped-token")
                 if j == n:
                     feats.add("trailing-blanks-tokenized")
@@ -154,13 +175,20 @@ def scan(lines, cfg):
                 j = k + 1
                 tok = RTok(cfg.string, line[col + 1:k], start, (ln, j + 1))
                 feats.add("value-narrower-than-match")
+                if any(c in EXOTIC_LINE_BREAKS for c in line[col + 1:k]):
+                    feats.add("exotic-line-break:in-string-token")
+                    exotic_after_tok = True
             elif ch == "/" and cfg.comments and line[col + 1:col + 2] == "/":
                 j = n
                 tok = RTok("COMMENT", line[col:], start, (ln, j + 1), skipped=True)
                 feats.add("eol-comment")
+                if any(c in EXOTIC_LINE_BREAKS for c in line[col:]):
+                    feats.add("exotic-line-break:in-eol-comment")
+                    exotic_after_tok = True
                 feats.add("skipped-token")
             elif ch == "/" and cfg.comments and line[col + 1:col + 2] == "*":
                 in_span = True
+                span_exotic = False
                 span_start = start
                 span_first_on_line = (col == 0)
                 col += 2
@@ -168,6 +196,13 @@ def scan(lines, cfg):
             else:
                 res.status, res.error_line = "lexerr", ln
                 return res
+            if exotic_before and not tok.skipped:
+                # a real token comes after such a character on the same '\n'-line, or on a later line:
+                # its position shows whether the character was (wrongly) taken for a line break
+                feats.add("exotic-line-break:token-follows")
+            if exotic_after_tok:
+                exotic_before = True
+                exotic_after_tok = False
             if first_real and not tok.skipped:
                 which = "line>1" if ln > 1 else "line1"
                 feats.add(which + (":first-token-at-col-1" if col == 0 else ":first-token-indented"))
@@ -206,7 +241,7 @@ class Text:
 
 
 def strip_lines(lines):
-    return [l.rstrip(SPACE_CHARS) for l in lines]
+    return [l.rstrip() for l in lines]
 
 
 def selftest():
@@ -235,3 +270,9 @@ def selftest():
     assert tx.slice((5, 13), (5, 19)) == "'str3'"
     assert scan(["ab #"], cfg).status == "lexerr" and scan(["", "a /* x"], cfg).status == "unclosed"
     assert scan(["a /* x"], CONFIGS["i"]).error_line == 1
+    # the tokenizer contract: a line ends at '\n' only; form feed / U+2028 are blanks (matched by \s)
+    r = scan("ab\x0c c\n\u2028ab //x\x0cy".split("\n"), cfg)
+    assert r.status == "ok" and [(t.start, t.end) for t in r.tokens if not t.skipped] == \
+        [((1, 1), (1, 3)), ((1, 5), (1, 6)), ((2, 2), (2, 4))], r.tokens
+    assert {"exotic-line-break:in-skipped-whitespace", "exotic-line-break:in-eol-comment",
+            "exotic-line-break:token-follows"} <= r.feats
